@@ -99,6 +99,54 @@ def run(ctx: Ctx, env):
             ctx.check(ok, "R4.printer-returns-text", f"{pk}[{pd}]" if pd else pk,
                       f"visit_{pk} {what} instead of text on a path the parser's trees take", t.where)
     ctx.floor("printer handler paths returning text", n_text, 40)
+    # every child the parser gives a node is printed, once: a child left out (or printed twice, or a None child visited) is text
+    # that parses to another tree. Holes that go deeper than the field itself (a handler printing its grandchildren) only count
+    # as "mentioned"; the field that selects the operator is the business of R1/R5.
+    n_child = 0
+    for (pk, pd), tmpls in sorted(A.node_tmpls.items(), key=lambda kv: (kv[0][0], kv[0][1] or "")):
+        row = kf.kinds.table.get((pk, None))
+        if pk not in seen or tmpls is None or row is None:
+            continue
+        dfield = kf.kinds.discr_field(pk)
+        for t in tmpls:
+            if t.path.outcome != "return" or not t.is_string or t.st is None:
+                continue
+            paths = [getattr(hole_node(h), "path", None) or "" for h in t.st.holes]
+            joins = [getattr(hole_node(h), "path", None) or "" for h in t.st.holes if h.kind == "join"]
+            conds = dict(t.path.conds)
+            for fname, fd in row.items():
+                if fd.shape not in ("node", "list") or fname == dfield:
+                    continue
+                base = f"node.{fname}"
+                exact = [x for x in paths if x == base]
+                deeper = [x for x in paths if x.startswith(base + ".") or x.startswith(base + "[")]
+                is_none = conds.get(f"{base} is None") is True
+                key = f"{pk}[{pd}].{fname}" if pd else f"{pk}.{fname}"
+                n_child += 1
+                if fd.shape == "node":
+                    if is_none:
+                        ok, why = not exact and not deeper, f"visits {base} although it is None on this path"
+                    else:
+                        ok, why = len(exact) == 1 or (not exact and bool(deeper)), (f"prints {base} {len(exact)} times" if exact else f"never prints {base}")
+                else:
+                    n_fixed = next((int(m.group(1)) for k, v in conds.items() if v is True
+                                    for m in [re.match(r"len\(" + re.escape(base) + r"\)==(\d+)$", k)] if m), None)
+                    star = [x for x in joins if x == base + "[*]"]
+                    known_empty = any(base in k and ((k.startswith("empty(") and v is True) or (k.startswith(("truth(", "nonempty(")) and v is False))
+                                      for k, v in conds.items())
+                    if known_empty and n_fixed is None:
+                        ok, why = not star and not deeper, f"prints elements of {base} although it is empty on this path"
+                    elif n_fixed is not None and not star:
+                        want = sorted(f"{base}[{i}]" for i in range(n_fixed))
+                        ok, why = sorted(deeper) == want, f"prints {sorted(deeper)} of a list of {n_fixed}"
+                    else:
+                        ok, why = len(star) == 1 or (not star and bool(deeper)), (f"joins {base} {len(star)} times" if star else f"never prints the elements of {base}")
+                ctx.check(ok, "R7.every-child-printed-once", key, f"visit_{pk} {why} (template `{t.text()}`" +
+                          (f" under {t.path.cond_str()[:120]}" if t.path.conds else "") + "): the text parses to a different tree", t.where)
+    ctx.floor("children checked for being printed once", n_child, 30)
+    from .common import check_fields_hold_declared_shapes
+    check_fields_hold_declared_shapes(ctx, env, "R4.fields-hold-what-they-declare", "the printer has nothing to print for it (None is skipped by the "
+                                      "reachability walk above), so the text parses to a different tree or not at all")
     ctx.floor("kinds reachable by the printer", len(seen), 35)
 
     from .common import check_shared_caches
@@ -308,6 +356,39 @@ def run(ctx: Ctx, env):
             ctx.check(("(" in txt and txt.endswith(")") and "joined by ', '" in txt or "joined by ','" in txt) or (no_args and txt.endswith("()")),
                       "R5.delimiters", "Call",
                       f"call printed as `{txt}`", t.where)
+    # the fixed text around the children is the concrete syntax of the construct (OData ABNF: navigation `/`, call and lambda
+    # parentheses, `:` after the lambda variable, `=` in a named parameter); blanks are not compared
+    SKELETONS = {
+        "Attribute": {"H/R", "H/H"},
+        "Call": {"H(J,)", "H()"},
+        "CollectionLambda": {"H/H(H)", "H/H()"},
+        "Lambda": {"H:H"},
+        "NamedParam": {"H=H"},
+    }
+    n_sk = 0
+    for kind, expect in SKELETONS.items():
+        for t in A.node_tmpls.get((kind, None)) or []:
+            if t.path.outcome != "return" or not t.is_string:
+                continue
+            sk = []
+            for it in t.items:
+                if isinstance(it, str):
+                    sk.append(it)
+                elif it[0] == "join":
+                    sepv = it[1]
+                    sep = sepv.v if isinstance(sepv, Const) else None
+                    sk.append("\x00J" + (sep.strip() if isinstance(sep, str) else "?") + "\x00")
+                else:
+                    v = it[1]
+                    sk.append("\x00H\x00" if isinstance(v, Sym) and v.op in ("visit", "dispatch", "stubcall") else "\x00R\x00")
+            txt = re.sub(r"\s+", "", "".join(sk))
+            txt = re.sub(r"[A-Za-z_]+", lambda m: m.group(0) if m.group(0) in ("H", "R") or m.group(0).startswith("J") else "\x00H\x00", txt.replace("\x00H\x00", "\x00H\x00"))
+            # words written out by the printer (an operator name substituted for its hole) stand for a hole
+            norm = re.sub(r"\x00(H|R|J[^\x00]*)\x00", lambda m: m.group(1), txt)
+            n_sk += 1
+            ctx.check(norm in expect, "R5.delimiters", f"{kind}|skeleton", f"{kind} printed as `{t.text()}`: the fixed text around the children must be "
+                      f"{' or '.join(sorted(expect))} (H: a child, R: the node's own text, J,: children joined by commas), got {norm}", t.where)
+    ctx.floor("structural templates compared with the concrete syntax", n_sk, 5)
     ctx.trust("the parser's decision relation is the LALR table of Core E (C05 checks it against the specification)")
 
 
